@@ -235,11 +235,6 @@ theorem export_duplicates_subs :
     iterModelspace cfgS (exportFile false [] [polyEnt] none) = .ok [polyEnt] := by
   decide
 
-/-- what an r12writer call may contain -/
-def r12CallOK (cfg : Cfg) : R12Call → Bool
-  | .simple ty a => a.all nz && ty != "SECTION" && ty != "ENDSEC" && ty != "EOF" && (expects cfg (⟨0, ty⟩ :: a)).isNone
-  | .polyline a vs => a.all nz && vs.all (fun v => v.all nz)
-
 private theorem r12_flat (calls : List R12Call) : flatEnts (calls.map R12Call.expected) = calls.flatMap R12Call.emit := by
   induction calls with
   | nil => rfl
@@ -338,11 +333,6 @@ private theorem jsonLoad_singles (isPt : Nat → Bool) (a : List Tag) (b : List 
       intro hh; apply h2; cases t; simp_all [tEOF]
     simp only [List.map_cons, List.cons_append, jsonLoad, h3, if_false, h1]
     rw [ih (fun x hx => h x (by simp [hx]))]
-
-/-- what the tag writers are given: the codes of vertices are point codes; coordinates are never comments or EOF -/
-def wtagOK (isPt : Nat → Bool) : WTag → Bool
-  | .single _ _ => true
-  | .vertex c xs => isPt c && (expandPoint c xs 0).all (fun t => t.code != 999 && t != tEOF)
 
 /-- JSON tags, compact and verbose: `json_tag_loader (JSONTagWriter ts)` is what `ascii_tags_loader` gets from
     `TagWriter ts`, for every list of compiled tags (comment skipping and the stop at EOF included). -/
